@@ -180,6 +180,39 @@ func c11Spell(rng *Rng, k c11Class) (string, []string) {
 	return b.String(), kinds
 }
 
+// c11Near rewrites a crontab string without touching its tokens: other blanks between the fields, a
+// leading / trailing blank added or dropped, or the case of its letters changed (month / weekday names).
+// The caller calibrates the result (same schedule, accepted) and rejects a string it already has.
+func c11Near(rng *Rng, s string) (string, []string) {
+	if rng.Chance(25) {
+		up, low := strings.ToUpper(s), strings.ToLower(s)
+		if up != low && !strings.Contains(s, "TZ=") && !strings.HasPrefix(strings.TrimSpace(s), "@") {
+			if s != up && rng.Bool() {
+				return up, []string{"near:letter-case"}
+			}
+			if s != low {
+				return low, []string{"near:letter-case"}
+			}
+		}
+	}
+	fs := strings.Fields(s)
+	blanks := []string{" ", " ", "  ", "\t", " \t", "   "}
+	var b strings.Builder
+	if rng.Chance(30) {
+		b.WriteString(PickOne(rng, blanks))
+	}
+	for i, x := range fs {
+		if i > 0 {
+			b.WriteString(PickOne(rng, blanks))
+		}
+		b.WriteString(x)
+	}
+	if rng.Chance(30) {
+		b.WriteString(PickOne(rng, []string{" ", "\t", "\n", "  "}))
+	}
+	return b.String(), []string{"near:blanks-only"}
+}
+
 // c11PickCrontabs chooses the n crontab strings of a case (pairwise distinct strings). About a third of
 // the cases keep the ordinary single-space spellings; in the others every crontab is respelled and, half
 // of the time, two of them are different spellings of ONE schedule (they fire at the same instant, the
@@ -209,8 +242,15 @@ func c11PickCrontabs(c *Case, rng *Rng, n int) []string {
 	for i := 0; i < n; i++ {
 		k := c11Classes[cls[i]]
 		got := ""
+		// the second spelling of a schedule is, most of the time, a NEAR variant of the first one: the same
+		// text up to blanks (other separators, leading / trailing blank) or up to the case of its letters —
+		// strings that any "canonicalisation" of crontabs would identify although they are two crontabs
+		near := i > 0 && cls[i] == cls[0] && rng.Chance(60)
 		for try := 0; try < 20 && got == ""; try++ {
 			s, kinds := c11Spell(rng, k)
+			if near && try < 8 {
+				s, kinds = c11Near(rng, cts[0])
+			}
 			if try >= 10 && try%2 == 0 {
 				s, kinds = k.canonical(), nil
 			}
@@ -715,6 +755,19 @@ func newC11Sys(r *Run, c *Case, hooks []c11Hook, crontabs []string) (*c11Sys, st
 			c.Op("undeclared-hook-in-schedule-order", n)
 		}
 	}
+	// the reference counting is keyed by (crontab, binding id): ids identify bindings — over ALL hooks
+	// (hypothesis huniq of the theorems, checked on the ids the real loader generated)
+	nb := 0
+	distinct := map[string]bool{}
+	for _, n := range names {
+		if hk := op.HookManager.GetHook(n); hk != nil && hk.GetConfig() != nil {
+			for _, b := range hk.GetConfig().Schedules {
+				nb++
+				distinct[b.ScheduleEntry.Id] = true
+			}
+		}
+	}
+	c.Oracle(fmt.Sprintf("ids bindings=%d distinct=%d", nb, len(distinct)))
 	// the EnableScheduleBindings tasks bootstrapMainQueue queued, one per hook with schedules
 	op.TaskQueues.GetMain().Iterate(func(t task.Task) {
 		if t.GetType() == task_metadata.EnableScheduleBindings {
